@@ -145,9 +145,12 @@ Proof.
   - inversion H. constructor.
   - destruct (is_num term) eqn:Hnum.
     + destruct (Z.leb (num_val term) max_int32); [|discriminate].
-      destruct doc as [| | | | |l|]; try discriminate.
-      destruct (nth_error l (Z.to_nat (num_val term))) as [x|]; [|discriminate].
-      apply bind_ok in H. destruct H as [more [Hm H]]. inversion H; subst p.
+      assert (Hcase : exists x a more, pfd ld rest G x a = Ok more /\ p = PInt (num_val term) :: more).
+      { destruct doc as [| | | | |l|];
+          try (apply bind_ok in H; destruct H as [more [Hm H]]; inversion H; eauto).
+        destruct (nth_error l (Z.to_nat (num_val term))) as [x|]; [|discriminate].
+        apply bind_ok in H. destruct H as [more [Hm H]]. inversion H. eauto. }
+      destruct Hcase as [x [a [more [Hm Hp]]]]. subst p.
       constructor; [left; auto | eapply IH; eauto].
     + apply bind_ok in H. destruct H as [m [Hobj H]].
       apply bind_ok in H. destruct H as [G2 [HG2 H]].
@@ -184,9 +187,12 @@ Proof.
     apply bind_ok in H. destruct H as [G2 [_ H]]. rewrite (Hun G2) in H. discriminate.
   - destruct (is_num a).
     + destruct (Z.leb (num_val a) max_int32); [|discriminate].
-      destruct doc as [| | | | |l|]; try discriminate.
-      destruct (nth_error l (Z.to_nat (num_val a))) as [x|]; [|discriminate].
-      apply bind_ok in H. destruct H as [more [Hm _]]. eapply IH; eauto.
+      assert (Hcase : exists x a0 more, pfd ld (pre ++ term :: rest) G x a0 = Ok more).
+      { destruct doc as [| | | | |l|];
+          try (apply bind_ok in H; destruct H as [more [Hm H]]; eauto).
+        destruct (nth_error l (Z.to_nat (num_val a))) as [x|]; [|discriminate].
+        apply bind_ok in H. destruct H as [more [Hm H]]. eauto. }
+      destruct Hcase as [x [a0 [more Hm]]]. eapply IH; eauto.
     + apply bind_ok in H. destruct H as [m [_ H]].
       apply bind_ok in H. destruct H as [G2 [_ H]].
       destruct (term_def G2 a) as [d|]; [|discriminate].
@@ -323,8 +329,9 @@ Fixpoint transparent (ld : loader) (pi : list string) (G : ctx) (doc : json) (ac
   | [] => True
   | term :: rest =>
       if is_num term then
-        forall l x, doc = JArr l -> nth_error l (Z.to_nat (num_val term)) = Some x ->
-                    transparent ld rest G x false
+        (forall l x, doc = JArr l -> nth_error l (Z.to_nat (num_val term)) = Some x ->
+                     transparent ld rest G x false) /\
+        ((forall l, doc <> JArr l) -> transparent ld rest G doc true)
       else forall m G2, resolver_object doc acc = Ok m -> resolver_enter ld G m = Ok G2 ->
            c_terms G2 = c_terms G /\
            forall d G3, term_def G2 term = Some d ->
@@ -339,10 +346,15 @@ Proof.
   - exact H.
   - destruct (is_num term) eqn:Hnum.
     + destruct (Z.leb (num_val term) max_int32); [|discriminate].
-      destruct doc as [| | | | |l|]; try discriminate.
-      destruct (nth_error l (Z.to_nat (num_val term))) as [x|] eqn:Hnth; [|discriminate].
-      apply bind_ok in H. destruct H as [more [Hm H]]. inversion H; subst p.
-      rewrite (IH G x false more Hm (Htr l x eq_refl Hnth)). reflexivity.
+      destruct Htr as [Htr1 Htr2].
+      assert (Hcase : exists more, pfc ld rest G = Ok more /\ p = PInt (num_val term) :: more).
+      { destruct doc as [| | | | |l|];
+          try (apply bind_ok in H; destruct H as [more [Hm H]]; inversion H; exists more; split; [|reflexivity];
+               apply (IH G _ true more Hm); apply Htr2; intros l0 E; discriminate).
+        destruct (nth_error l (Z.to_nat (num_val term))) as [x|] eqn:Hnth; [|discriminate].
+        apply bind_ok in H. destruct H as [more [Hm H]]. inversion H. exists more. split; [|reflexivity].
+        exact (IH G x false more Hm (Htr1 l x eq_refl Hnth)). }
+      destruct Hcase as [more [Hm Hp]]. subst p. rewrite Hm. reflexivity.
     + apply bind_ok in H. destruct H as [m [Hobj H]].
       apply bind_ok in H. destruct H as [G2 [HG2 H]].
       destruct (Htr m G2 Hobj HG2) as [Heq Hnext].
@@ -734,32 +746,28 @@ Proof.
   - apply no_fact_at_spec. exact d8_nothing_stored.
 Qed.
 
-(* D14 (fixed by 8c11b39): a numeric segment selects a member of the array found at that
-   position of the document; anything else is an error; the walk continues in that member *)
-Theorem numeric_segment_selects_member : forall ld i rest G doc acc p,
+(* D14 (array part fixed by 7a3eec3): a numeric segment on an array selects one of its
+   members and the walk continues in that member; out of range is an error *)
+Theorem numeric_segment_selects_member : forall ld i rest G l acc p,
   is_num i = true ->
-  pfd ld (i :: rest) G doc acc = Ok p ->
-  exists l x more, doc = JArr l /\ nth_error l (Z.to_nat (num_val i)) = Some x /\
-                   pfd ld rest G x false = Ok more /\ p = PInt (num_val i) :: more.
+  pfd ld (i :: rest) G (JArr l) acc = Ok p ->
+  exists x more, nth_error l (Z.to_nat (num_val i)) = Some x /\
+                 pfd ld rest G x false = Ok more /\ p = PInt (num_val i) :: more.
 Proof.
-  intros ld i rest G doc acc p Hn H. simpl in H. rewrite Hn in H.
+  intros ld i rest G l acc p Hn H. simpl in H. rewrite Hn in H.
   destruct (Z.leb (num_val i) max_int32); [|discriminate].
-  destruct doc as [| | | | |l|]; try discriminate.
   destruct (nth_error l (Z.to_nat (num_val i))) as [x|] eqn:Hnth; [|discriminate].
   apply bind_ok in H. destruct H as [more [Hm H]]. inversion H.
-  exists l, x, more. auto.
+  exists x, more. auto.
 Qed.
 
-Theorem numeric_segment_errors : forall ld i rest G doc acc,
+Theorem numeric_segment_errors : forall ld i rest G l acc,
   is_num i = true ->
-  (forall l, doc <> JArr l) \/ (exists l, doc = JArr l /\ nth_error l (Z.to_nat (num_val i)) = None) ->
-  exists t, pfd ld (i :: rest) G doc acc = Err t.
+  nth_error l (Z.to_nat (num_val i)) = None ->
+  exists t, pfd ld (i :: rest) G (JArr l) acc = Err t.
 Proof.
-  intros ld i rest G doc acc Hn H. simpl. rewrite Hn.
-  destruct (Z.leb (num_val i) max_int32); [|eauto].
-  destruct H as [H|[l [E Hnth]]].
-  - destruct doc as [| | | | |l|]; eauto. exfalso. apply (H l). reflexivity.
-  - subst doc. rewrite Hnth. eauto.
+  intros ld i rest G l acc Hn Hnth. simpl. rewrite Hn.
+  destruct (Z.leb (num_val i) max_int32); [|eauto]. rewrite Hnth. eauto.
 Qed.
 
 Definition d14_doc : json :=
@@ -767,13 +775,26 @@ Definition d14_doc : json :=
         ("p", JArr [JStr "a"; JStr "b"]);
         ("name", JStr "x")].
 
-(* the former D14 witnesses are errors now *)
+(* the former out-of-range witness is an error now *)
 Example d14_out_of_range : path_from_document [] d14_doc ["p"; "5"] = Err "index-out-of-range".
 Proof. vm_compute. reflexivity. Qed.
-Example d14_on_scalar : path_from_document [] d14_doc ["name"; "0"] = Err "not-an-array".
+(* ... but not on a value that is not an array (kept: pinned by the repository's TestIPFSContext) *)
+Example d14_on_scalar : path_from_document [] d14_doc ["name"; "0"] = Ok [PStr "http://e/name"; PInt 0].
 Proof. vm_compute. reflexivity. Qed.
-Example d14_into_string : path_from_document [] d14_doc ["name"; "0"; "1"] = Err "not-an-array".
+Example d14_into_string : path_from_document [] d14_doc ["name"; "0"; "1"] = Ok [PStr "http://e/name"; PInt 0; PInt 1].
 Proof. vm_compute. reflexivity. Qed.
+
+Theorem numeric_segment_on_non_array_refuted :
+  exists ld doc pi p,
+    path_from_document ld doc pi = Ok p /\
+    (exists t, doc_field ld doc pi = Err t) /\
+    (exists fs, facts ld doc = Ok fs /\ forall f, In f fs -> f_path f <> p).
+Proof.
+  exists [], d14_doc, ["name"; "0"], [PStr "http://e/name"; PInt 0].
+  split; [exact d14_on_scalar|]. split.
+  - exists "index-on-non-array". vm_compute. reflexivity.
+  - apply no_fact_at_spec. vm_compute. reflexivity.
+Qed.
 Example d14_in_range_ok :
   path_from_document [] d14_doc ["p"; "1"] = Ok [PStr "http://e/p"; PInt 1] /\
   doc_field [] d14_doc ["p"; "1"]
